@@ -114,6 +114,9 @@ class PathStats:
         self.pruned = 0
 
 
+_DEP_CONSTS = {'parry2d_f64::math::DIM': 2, 'parry2d_f64::math::SIMD_WIDTH': 4, 'parry3d_f64::math::DIM': 3, 'parry3d_f64::math::SIMD_WIDTH': 4}
+
+
 class Engine:
     """one exploration of an entry function under a driver"""
 
@@ -519,6 +522,9 @@ class Engine:
             return Opaque('zst')
         if re.match(r'^(\{closure|PhantomData|std::marker::PhantomData)', v):
             return Opaque('zst')
+        # constants of dependencies that engeom's own code reads (parry2d_f64::math)
+        if v in _DEP_CONSTS:
+            return _DEP_CONSTS[v]
         # named constant of this crate
         item = self.mir.const_item(v)
         if item is not None:
